@@ -28,6 +28,9 @@ use std::{
 
 type Handle = Arc<Mutex<Box<dyn DynCtx>>>;
 
+/// Stack size of every thread this tool spawns (this crate is built unoptimised, frames are big)
+const THREAD_STACK: usize = 16 << 20;
+
 /// Shared by the main thread, the persistent workers and the `par` threads
 struct State {
     /// Named contexts
@@ -164,8 +167,14 @@ fn op_drop(st: &State, c: &Cmd) -> OpResult {
         return Err(tool(format!("unknown ctx {:?}", name)));
     }
     let handle = lock(&st.ctxs).remove(name).expect("checked above");
-    let mutex = Arc::try_unwrap(handle)
-        .map_err(|_| tool("ctx is still in use elsewhere (executor bug)"))?;
+    let mutex = match Arc::try_unwrap(handle) {
+        Ok(m) => m,
+        Err(handle) => {
+            // Only possible when two par lists name the same context: put it back
+            lock(&st.ctxs).insert(name.to_string(), handle);
+            return Err(tool("ctx is in use by another thread"));
+        }
+    };
     let boxed: Box<dyn DynCtx> = mutex.into_inner().unwrap_or_else(|e| e.into_inner());
 
     let scans = match scans {
@@ -219,7 +228,8 @@ fn op_par_export(st: &State, c: &Cmd) -> OpResult {
     let per_thread: Vec<Result<Vec<Result<Vec<u8>, Stop>>, String>> = thread::scope(|s| {
         let hs: Vec<_> = (0..n)
             .map(|_| {
-                s.spawn(|| {
+                let b = thread::Builder::new().stack_size(THREAD_STACK);
+                b.spawn_scoped(s, || {
                     barrier.wait();
                     let mut res = Vec::with_capacity(reps);
                     for _ in 0..reps {
@@ -232,6 +242,7 @@ fn op_par_export(st: &State, c: &Cmd) -> OpResult {
                     }
                     res
                 })
+                .expect("cannot spawn par_export thread")
             })
             .collect();
         hs.into_iter()
@@ -281,7 +292,8 @@ fn op_par(st: &State, c: &Cmd) -> OpResult {
             .iter()
             .map(|list| {
                 let barrier = &barrier;
-                s.spawn(move || {
+                let b = thread::Builder::new().stack_size(THREAD_STACK);
+                b.spawn_scoped(s, move || {
                     barrier.wait();
                     let mut local: Vec<Value> = Vec::new();
                     for (j, cmd) in list.as_array().unwrap().iter().enumerate() {
@@ -290,6 +302,7 @@ fn op_par(st: &State, c: &Cmd) -> OpResult {
                     }
                     local
                 })
+                .expect("cannot spawn par thread")
             })
             .collect();
         hs.into_iter()
@@ -643,6 +656,7 @@ fn spawn_worker(st: Arc<State>, t: u64) -> Worker {
     let (res_tx, res_rx) = mpsc::channel::<Value>();
     thread::Builder::new()
         .name(format!("worker-{}", t))
+        .stack_size(THREAD_STACK)
         .spawn(move || {
             for (cmd, i) in jobs_rx {
                 let ev = exec_cmd(&st, &cmd, i, None, true);
